@@ -22,6 +22,7 @@
      data <c> <type> <n> <all|block|strided>   node /T_<type> (C1 B1 I4 U4 I8 U8 R4 R8 X4 X8): set dimensions, write, read back
      bad <c> <entry> <class>  a data call with an invalid argument (see the op's comment): every cgio data entry point x every
                              class of argument that is rejected after objects were opened
+     multi <c> <type> <n1> <n2> <reps>   successful writes / reads of a node with several data chunks (see the op's comment)
      strand <c> <kind>       (HDF5) abandon an open identifier of kind dataset|group|attr|datatype on a node of the file
      cycle <k>               (oracle runs) marks the end of one repetition of the session: prints heap / fds / h5
                              (h5 counts file-less identifiers too: see c17_common.c)
@@ -168,7 +169,7 @@ int main(int argc, char **argv)
     is_h5 = !strcmp(argv[2], "hdf5");
     fd0 = fd_count();
     while (fgets(line, sizeof line, stdin)) {
-        char a[4096], b[4096]; int n, c; char m;
+        char a[4096], b[4096]; int n, c, st0 = 0, k0 = 0; char m;
         size_t L = strlen(line);
         while (L && (line[L - 1] == '\n' || line[L - 1] == '\r')) line[--L] = 0;
         if (!L || line[0] == '#') continue;
@@ -225,6 +226,36 @@ int main(int argc, char **argv)
                 if (!st) st = cgio_read_data_type(c, id, &one, &last, &two, a, 1, &mcount, &one, &mcount, &one, buf);
             }
             printf("data %s", st ? "err" : "ok"); dump_state();
+        } else if (sscanf(line, "multi %d %7s %d %d %d", &c, a, &n, &st0, &k0) == 5) {
+            /* multi <c> <type> <n1> <n2> <reps>: a node whose data lives in TWO OR MORE data chunks (ADF), the recipe of the C02c
+               layer: write n1 elements, enlarge in place with cgio_set_dimensions (same type and rank) to n2 > n1, write again (a
+               further chunk is added), enlarge to n2 + n1 and write (a third); then <reps> times: rewrite everything at its size,
+               read everything, rewrite and read a block that spans the chunk boundary, a strided write and read.  All calls
+               are valid and must succeed; nothing may stay allocated behind them. */
+            double root = 0, id = 0; char path[40]; int st, r; cgsize_t d1 = n, d2 = st0, d3 = (cgsize_t)n + st0, one = 1, two = 2, lo, hi, mc;
+            static double buf[8192];
+            memset(buf, 0x22, sizeof buf);
+            if (d3 > 2000) { printf("multi toolarge"); dump_state(); continue; }
+            sprintf(path, "M_%s", a);
+            st = cgio_get_root_id(c, &root);
+            if (!st && !cgio_get_node_id(c, root, path, &id)) st = cgio_delete_node(c, root, id);
+            if (!st) st = cgio_create_node(c, root, path, &id);
+            if (!st) st = cgio_set_dimensions(c, id, a, 1, &d1);
+            if (!st) st = cgio_write_all_data(c, id, buf);
+            if (!st) st = cgio_set_dimensions(c, id, a, 1, &d2);
+            if (!st) st = cgio_write_all_data(c, id, buf);
+            if (!st) st = cgio_set_dimensions(c, id, a, 1, &d3);
+            if (!st) st = cgio_write_all_data(c, id, buf);
+            lo = d1 > 2 ? d1 - 1 : 1; hi = d2 + 1 <= d3 ? d2 + 1 : d3; mc = (d3 + 1) / 2;
+            for (r = 0; r < k0 && !st; r++) {
+                st = cgio_write_all_data(c, id, buf);
+                if (!st) st = cgio_read_all_data_type(c, id, a, buf);
+                if (!st) st = cgio_write_block_data(c, id, lo, hi, buf);
+                if (!st) st = cgio_read_block_data_type(c, id, lo, hi, a, buf);
+                if (!st) st = cgio_write_data(c, id, &one, &d3, &two, 1, &mc, &one, &mc, &one, buf);
+                if (!st) st = cgio_read_data_type(c, id, &one, &d3, &two, a, 1, &mc, &one, &mc, &one, buf);
+            }
+            printf("multi %s", st ? "err" : "ok"); dump_state();
         } else if (sscanf(line, "strand %d %15s", &c, a) == 2) {
             /* strand <c> <dataset|group|attr|datatype>: (HDF5) open one more identifier of that kind on the node /T_R8 of the file
                behind handle c with libhdf5 directly and abandon it -- what a call that fails half-way does.  The close of the
